@@ -2,7 +2,7 @@
 From Coq Require Import ZArith Bool List.
 Import ListNotations.
 Require Import TC.Base.Map TC.Store.Stores TC.Store.Refine TC.Limiter.KeyStep TC.Limiter.KeyLemmas
-  TC.Limiter.Limiter TC.Limiter.Abstract TC.Limiter.Project TC.Limiter.Top.
+  TC.Limiter.Limiter TC.Limiter.Abstract TC.Limiter.Project TC.Limiter.Top TC.Limiter.Regress TC.Store.AbsMap.
 Open Scope Z_scope.
 Require Import TC.Properties.C05.
 
@@ -23,3 +23,12 @@ Check C05_isolation :
 Check C05_frame :
   forall (K : Type) (keqb : K -> K -> bool) (rate : Z -> Z -> Z) (am : AbsMap.absmap K) (rq : req K) (k' : K),
   keqb k' (r_key rq) = false -> fst (al_step K keqb rate am rq) k' = am k'.
+Check C05_projection_no_stale_forget :
+  forall (K : Type) (keqb : K -> K -> bool), (forall a b, reflect (a = b) (keqb a b)) ->
+  forall (rate : Z -> Z -> Z) (st0 : store K) (h : list (bool * req K)) (k : K) (B count period : Z),
+  sdata K st0 = [] ->
+  inD (rate count period) B -> 1 <= count -> 1 <= period ->
+  times_ok K (map snd h) -> key_fixed K keqb k B count period (map snd h) ->
+  no_stale_forget K keqb rate st0 abs_empty h ->
+  project K keqb k (map snd h) (snd (lrun K keqb rate st0 h)) =
+  snd (krun (rate count period) B None (kreqs K keqb k (map snd h))).
